@@ -623,6 +623,8 @@ class McBlockExtra(TlbScheme):
         key_block = cell_slice.load_bit()
         shard_hashes = deserialize_shard_hashes(cell_slice)
         shard_fees = cell_slice.load_maybe_ref()
+        for _ in range(2):  # root extra of the HashmapAugE: ShardFeeCreated (fees, create)
+            CurrencyCollection.deserialize(cell_slice)
         ref = cell_slice.load_ref().begin_parse()
         prev_blk_signatures = ref.load_dict(16)
         recover_create_msg = ref.load_maybe_ref()
